@@ -39,6 +39,8 @@ def plan(tier, seed):
             units.append({'kind': 'app-send', 'proto': proto, 'sizes': [1, 100, 4000] if q else [1, 15, 16, 100, 4000, 16384], 'rep': rep, 'weight': 3})
         units.append({'kind': 'rand-bytes', 'sizes': [1, 8, 16, 32, 48, 64, 65, 255, 256, 257, 300, 512, 513, 1024, 2048, 4096, 4097, 65536], 'rep': rep, 'weight': 2})
         units.append({'kind': 'ctx-reuse', 'count': 200 if q else 1500, 'fail_draws': [0, 1, 15, 31] if q else list(range(32)), 'rep': rep, 'weight': 4})
+        units.append({'kind': 'ctx-reuse-enc', 'count': 100 if q else 600, 'after': [0, 1, 7, 8, 9, 16] if q else list(range(18)),
+                      'fail_draws': [0, 3, 7] if q else list(range(9)), 'rep': rep, 'weight': 4})
         for proto in ('tlcp', 'tls12', 'tls13'):
             for role in ('client', 'server'):
                 for mutual in (False, True):
@@ -641,6 +643,107 @@ def u_ctx_reuse(ctx, u):
     ctx.sample({'op': name, 'signatures_on_one_context': n, 'refill_draws_failed': len(u['fail_draws'])})
 
 
+def u_ctx_reuse_enc(ctx, u):
+    """One SM2 encryption context used for many messages (init once; reset / update / finish).  Whether the build keeps a
+    pool of pre-computed (k, [k]G) pairs in the context or draws a nonce per message is not assumed: the monitors are that every
+    ciphertext of the stream has a new C1 and decrypts to the message, that a finish during which a draw failed reports
+    failure, and that the ciphertexts made afterwards (source working again, or still failing) are again new and decryptable."""
+    lib, sh, L = ctx.lib, ctx.shim, ctx.L
+    st = _sm2_key(ctx)
+    name = 'sm2_encrypt_finish(one context)'
+    msg = b'the same message every time'
+
+    def new_ctx(seed):
+        sh.vf_entropy_seed(ctypes.c_uint64(seed))
+        sc = ctx.buf(L['sizeof_SM2_ENC_CTX'], fill=0)
+        return sc if lib.sm2_encrypt_init(sc) == 1 else None
+
+    def finish(sc):
+        m = ctx.inbuf(msg)
+        out = ctx.buf(400, fill=0xA5)
+        ol = ctypes.c_size_t(0)
+        lib.sm2_encrypt_reset(sc)
+        lib.sm2_encrypt_update(sc, m, len(msg))
+        r = lib.sm2_encrypt_finish(sc, st['key'], out, ctypes.byref(ol))
+        der = out.raw(min(ol.value, 400)) if r == 1 else None
+        m.free()
+        out.free()
+        return der
+
+    def judge(der, seen, j, **det):
+        """new C1 + decrypts; returns False when the stream should be abandoned"""
+        p = R.ct_parse_strict(der)
+        if not ctx.check(p is not None, 'emitted:ciphertext-does-not-parse:' + name, n=j, **det):
+            return False
+        c1 = (p[0], p[1])
+        if c1 in seen:
+            ctx.violation('reuse:ephemeral-value-repeated-within-one-stream:' + name, first=seen[c1], again=j, **det)
+            return False
+        seen[c1] = j
+        back = R.decrypt(st['d'], c1, p[2], p[3]) if R.on_curve(c1) else None
+        ctx.check(back == msg, 'emitted:ciphertext-does-not-decrypt:' + name, n=j, c1_on_curve=R.on_curve(c1), **det)
+        return True
+    base = 0x7171 + u['_i'] + (ctx.seed << 24)
+    sc = new_ctx(base)
+    if not ctx.check(sc is not None, 'clean:operation-failed-or-drew-no-entropy:' + name):
+        return
+    seen = {}
+    draws0 = sh.vf_entropy_draws()
+    for j in range(u['count']):
+        ctx.begin(['enc-ctx-reuse', j])
+        der = finish(sc)
+        if not ctx.check(der is not None, 'clean:operation-failed-or-drew-no-entropy:' + name, message=j) or not judge(der, seen, j):
+            break
+    ctx.check(sh.vf_entropy_draws() > draws0, 'clean:operation-failed-or-drew-no-entropy:' + name, note='no draw observed', messages=u['count'])
+    ctx.stat('ctx_reuse_ciphertexts', len(seen))
+    ctx.nontrivial(name, 'no-reuse', len(seen), base)
+    sc.free()
+    # a draw fails after k successful messages (k sweeps across any pool size up to 16), transiently or for good
+    for k in u['after']:
+        for i in u['fail_draws']:
+            for sticky in (0, 1):
+                sc = new_ctx(base + 1 + 64 * k + 2 * i + sticky)
+                if sc is None:
+                    continue
+                seen = {}
+                good = True
+                for j in range(k):
+                    der = finish(sc)
+                    if der is None or not judge(der, seen, j, phase='before-fault'):
+                        good = False
+                        break
+                if not good:
+                    ctx.check(False, 'clean:operation-failed-or-drew-no-entropy:' + name, phase='before-fault', k=k)
+                    sc.free()
+                    continue
+                sh.vf_entropy_fail_at(sh.vf_entropy_draws() + i, sticky)
+                ctx.begin(['enc-ctx-reuse-fail', k, i, sticky])
+                d0 = sh.vf_entropy_draws()
+                der = finish(sc)
+                failed = sh.vf_entropy_failed()
+                if failed:
+                    ctx.check(der is None, 'fail-open:success-despite-failed-draw:' + name, after=k, draw=i, sticky=sticky)
+                    ctx.stat('faults_injected')
+                    ctx.nontrivial(name, 'fail-at', k, i, sticky)
+                else:
+                    ctx.stat('faults_not_reached')
+                    if der is not None:
+                        judge(der, seen, k, phase='fault-not-reached')
+                # the caller retries / goes on to the next messages
+                for j in range(18):
+                    if j == 9:
+                        sh.vf_entropy_fail_at(-1, 0)       # from here on the source works in either case
+                    der = finish(sc)
+                    if der is None:
+                        continue
+                    if not judge(der, seen, 100 + j, after=k, draw=i, sticky=sticky, phase='after-fault'):
+                        break
+                    ctx.ok()
+                sh.vf_entropy_fail_at(-1, 0)
+                sc.free()
+    ctx.sample({'op': name, 'messages_on_one_context': u['count'], 'after': list(u['after']), 'fail_draws': list(u['fail_draws'])})
+
+
 def u_rand_bytes(ctx, u):
     """rand_bytes itself, for request sizes around and beyond one getentropy call (256 bytes): when it reports success, every
     16-byte block of the output depends on the entropy stream (two streams differ in every block), the same stream gives the
@@ -787,4 +890,4 @@ def u_handshake(ctx, u):
 
 
 def run_unit(ctx, u):
-    {'op': u_op, 'handshake': u_handshake, 'ctx-reuse': u_ctx_reuse, 'rand-bytes': u_rand_bytes, 'app-send': u_app_send}[u['kind']](ctx, u)
+    {'op': u_op, 'handshake': u_handshake, 'ctx-reuse': u_ctx_reuse, 'ctx-reuse-enc': u_ctx_reuse_enc, 'rand-bytes': u_rand_bytes, 'app-send': u_app_send}[u['kind']](ctx, u)
